@@ -124,6 +124,74 @@ def check_emission(ctx, model, tup, cov):
             })
 
 
+def check_reconfiguration(ctx, model, tup, cov):
+    """One terminal object used for several commands while its layer count changes in between (attribute
+    assignment, detect_tmux under a changed environment, clone_with): every command must be wrapped with the layer
+    count in force when it is sent."""
+    gc = tup.graphics_command
+    GT = tup.graphics_terminal.GraphicsTerminal
+    rng = ctx.rng
+    saved = {k: os.environ.get(k) for k in ("TMUX", "TERM")}
+    cases = []
+    try:
+        for _ in range(ctx.pick(60, 600)):
+            out = common.RecStream()
+            t = GT(out_command=out, out_display=common.RecStream(), in_response=io.BytesIO(), in_userinput=io.BytesIO(), num_tmux_layers=rng.randrange(0, 3))
+            steps = []
+            for _ in range(rng.randrange(2, 6)):
+                how = rng.choice(["keep", "assign", "detect", "clone"])
+                if how == "assign":
+                    t.num_tmux_layers = rng.randrange(0, 4)
+                elif how == "detect":
+                    os.environ["TMUX"] = rng.choice(["", "/tmp/tmux-1/default,1,0"])
+                    os.environ["TERM"] = rng.choice(["xterm", "screen-256color", "tmux"])
+                    t.detect_tmux()
+                elif how == "clone":
+                    t = t.clone_with(num_tmux_layers=rng.randrange(0, 4))
+                n = t.num_tmux_layers
+                kind, cmd = next(iter(gen_commands_one(ctx, tup)))
+                before = len(out.writes)
+                try:
+                    t.send_command(cmd)
+                except ValueError:
+                    continue
+                # the template the object hands out must also be the n-layer one
+                tmpl = t.get_graphics_command_template()
+                for w in out.writes[before:]:
+                    cases.append((how, n, w, tmpl, kind))
+                steps.append(how)
+    finally:
+        for k, v in saved.items():
+            if v is None:
+                os.environ.pop(k, None)
+            else:
+                os.environ[k] = v
+    reqs = []
+    for how, n, w, tmpl, kind in cases:
+        reqs.append(f"c11.spec_unwrapn {n} {hexs(w)}")
+        reqs.append(f"c11.template {n}")
+    reps = model.batch(reqs)
+    for i, (how, n, w, tmpl, kind) in enumerate(cases):
+        un, mt = reps[2 * i], reps[2 * i + 1]
+        case = {"reconfigured_by": how, "layers_in_force": n, "kind": kind, "written": hexs(w)[:200]}
+        cov.add(case, nontrivial=how != "keep", klass=f"reconfigure/{how}/n={n}")
+        inner = unhex(un) if un != "NONE" else None
+        ok = inner is not None and inner.startswith(b"\x1b_G") and inner.endswith(b"\x1b\\") and b"\x1b" not in inner[3:-2]
+        if not ok:
+            ctx.violations.append({"signature": {"class": "stale-tmux-wrapping-after-reconfiguration", "how": how},
+                                   "what": f"after the layer count was changed ({how}) to {n}, the next command is not wrapped {n} time(s): removing {n} layers by tmux's rule does not give a bare graphics command",
+                                   "case": {"kind": "emit", "layers": n, "written": hexs(w), "expected_plain": hexs(inner or b"")}})
+        if unhex(mt) != tmpl:
+            ctx.corr_breaks.append({"what": "template after reconfiguration differs from Model.TmuxTemplate.template", "case": case})
+
+
+def gen_commands_one(ctx, tup):
+    saved = ctx.tier
+    for kind, cmd in gen_commands(ctx, tup):
+        yield kind, cmd
+        return
+
+
 TMUX_VALUES = [None, "", "/tmp/tmux-1000/default,4242,0", "x"]
 TERM_VALUES = [None, "", "xterm-256color", "screen", "screen-256color", "tmux-256color", "xterm-tmux", "st-screen-x", "SCREEN", "scree", "tmu", "linux"]
 
@@ -222,6 +290,7 @@ def run(ctx, model):
     common.scrub_process_env()
     tup = common.import_impl()
     check_emission(ctx, model, tup, cov)
+    check_reconfiguration(ctx, model, tup, cov)
     check_detection(ctx, model, tup, cov)
     return cov
 
